@@ -1,8 +1,10 @@
-import TmVerif.Model.LRCheck
+import TmVerif.Proofs.LRCheckMin
 /-!
 C06 — state minimisation preserves behaviour from every entry point.
 `simCheck` is the certificate check run on the real unminimized/minimized tables of every sampled
-grammar. The theorems state what an accepted certificate guarantees, for all tables.
+grammar. The theorems state what an accepted certificate guarantees, for all tables — per related
+pair of states, and (`C06_runs_equal`) for whole runs of the runtime model `Model/LR.lean` on every
+input.
 -/
 namespace TmVerif.LRCheck
 open TmVerif.LR
@@ -71,5 +73,109 @@ theorem C06_acceptance_related (t t' : Tables) (acts : Array Int) (n : Nat)
       | some s' =>
         refine ⟨s', rfl, ?_⟩
         simpa [hr] using this
+
+/-! ### whole runs
+
+`run { t with optimized := false } inp i fuel` is the parse loop of the generated parser (default
+encoding) started at input `i`. Side conditions, decidable and evaluated by the driver on every
+real pair of tables (answer `hypothesis-fails …` otherwise): `tablesWf` of both table sets,
+`sameRules t t'` (the minimiser leaves `RuleLen`/`RuleSymbol`/the number of terminals alone),
+`inputOk` (token symbols are terminals). -/
+
+/-- meaning of `traceSim`: the traces have the same length and correspond event by event —
+the same token shifted, or two rules of one class (same left-hand side, length, action id)
+reduced over the same range -/
+theorem C06_traceSim_spec (t : Tables) (acts : Array Int) : ∀ (evs evs' : List Ev),
+    traceSim t acts evs evs' = true ↔
+      evs.length = evs'.length ∧
+      ∀ (k : Nat) (e e' : Ev), evs[k]? = some e → evs'[k]? = some e' →
+        (∃ s o en, e = Ev.shift s o en ∧ e' = Ev.shift s o en) ∨
+        (∃ r r' o en, e = Ev.reduce r o en ∧ e' = Ev.reduce r' o en ∧
+          ruleClassEq t acts r r' = true)
+  | [], [] => by simp [traceSim]
+  | [], _ :: _ => by simp [traceSim]
+  | _ :: _, [] => by simp [traceSim]
+  | e0 :: es, e0' :: es' => by
+    rw [traceSim, Bool.and_eq_true, C06_traceSim_spec t acts es es']
+    constructor
+    · rintro ⟨h0, hl, hk⟩
+      refine ⟨by simp [hl], ?_⟩
+      intro k e e' he he'
+      cases k with
+      | zero =>
+        simp only [List.getElem?_cons_zero, Option.some.injEq] at he he'
+        subst he he'
+        cases e0 <;> cases e0' <;> simp only [evSim, Bool.and_eq_true, beq_iff_eq] at h0
+        · obtain ⟨⟨h1, h2⟩, h3⟩ := h0
+          subst h1 h2 h3
+          exact Or.inl ⟨_, _, _, rfl, rfl⟩
+        · cases h0
+        · cases h0
+        · obtain ⟨⟨h1, h2⟩, h3⟩ := h0
+          subst h2 h3
+          exact Or.inr ⟨_, _, _, _, rfl, rfl, h1⟩
+      | succ k =>
+        simp only [List.getElem?_cons_succ] at he he'
+        exact hk k e e' he he'
+    · rintro ⟨hl, hk⟩
+      refine ⟨?_, by simpa using hl, fun k e e' he he' => hk (k + 1) e e' (by simpa using he) (by simpa using he')⟩
+      rcases hk 0 e0 e0' rfl rfl with ⟨s, o, en, h1, h2⟩ | ⟨r, r', o, en, h1, h2, h3⟩
+      · subst h1 h2; simp [evSim]
+      · subst h1 h2; simp [evSim, h3]
+
+/-- An accepted certificate lifts to whole runs: started at any input `i < n`, on every token
+sequence and with every fuel, the unminimized and the minimized tables produce the same result
+(accept, syntax error at the same token, panic, out of fuel) and corresponding traces. -/
+theorem C06_runs_equal (t t' : Tables) (acts : Array Int) (n : Nat) (rel : Array (Option Nat))
+    (rs : List (List Nat)) (h : simCheck t t' acts n rel rs = true)
+    (hwf : tablesWf t = true) (hwf' : tablesWf t' = true) (hsr : sameRules t t' = true)
+    (inp : Input) (hin : inputOk t inp = true) (i : Nat) (hi : i < n) (fuel : Nat) :
+    (run { t with optimized := false } inp i fuel).1 = (run { t' with optimized := false } inp i fuel).1 ∧
+    traceSim t acts (run { t with optimized := false } inp i fuel).2.evs
+      (run { t' with optimized := false } inp i fuel).2.evs = true :=
+  run_rel h hwf hwf' hsr hin hi fuel
+
+/-- in particular both tables accept the same token sequences from every entry point -/
+theorem C06_same_language (t t' : Tables) (acts : Array Int) (n : Nat) (rel : Array (Option Nat))
+    (rs : List (List Nat)) (h : simCheck t t' acts n rel rs = true)
+    (hwf : tablesWf t = true) (hwf' : tablesWf t' = true) (hsr : sameRules t t' = true)
+    (inp : Input) (hin : inputOk t inp = true) (i : Nat) (hi : i < n) (fuel : Nat) :
+    (run { t with optimized := false } inp i fuel).1 = .accept ↔
+    (run { t' with optimized := false } inp i fuel).1 = .accept := by
+  rw [(C06_runs_equal t t' acts n rel rs h hwf hwf' hsr inp hin i hi fuel).1]
+
+/-! ### non-vacuity: real tables of `S : a S | a b ;` before and after `MinimizeDFA`
+(a case of a quick run; the minimiser merges the two reduce states 2 and 3, the rules 0 and 1 have
+the same left-hand side, length and action id) -/
+
+def exT : Tables :=
+  { nTerms := 3, action := #[-1, -1, 1, 0, -1, -2], lalr := #[], goto_ := #[0, 2, 6, 8, 12, 12],
+    fromTo := #[4, 5, 0, 1, 1, 1, 1, 2, 0, 4, 1, 3], ruleLen := #[2, 2, 2],
+    ruleSymbol := #[3, 3, 4], finalStates := #[5] }
+
+def exT' : Tables :=
+  { nTerms := 3, action := #[-1, -1, 0, -1, -2], lalr := #[], goto_ := #[0, 2, 6, 8, 12, 12],
+    fromTo := #[3, 4, 0, 1, 1, 1, 1, 2, 0, 3, 1, 2], ruleLen := #[2, 2, 2],
+    ruleSymbol := #[3, 3, 4], finalStates := #[4] }
+
+def exRel : Array (Option Nat) := #[some 0, some 1, some 2, some 2, some 3, some 4]
+
+/-- `a a b` -/
+def exInp : Input := ⟨#[⟨1, 0, 1⟩, ⟨1, 1, 2⟩, ⟨2, 2, 3⟩], 3⟩
+
+example : simCheck exT exT' #[0, 0, 0] 1 exRel [[0, 1, 2, 3, 4, 5]] = true ∧
+    tablesWf exT = true ∧ tablesWf exT' = true ∧ sameRules exT exT' = true ∧
+    inputOk exT exInp = true := by
+  decide +kernel
+
+/-- both accept `a a b`; the traces differ (rule 1 then rule 0 against rule 0 twice) but
+correspond up to rule classes -/
+example : (run { exT with optimized := false } exInp 0 20).1 = .accept ∧
+    (run { exT' with optimized := false } exInp 0 20).1 = .accept ∧
+    (run { exT with optimized := false } exInp 0 20).2.evs =
+      [.shift 0 3 3, .reduce 0 0 3, .reduce 1 1 3, .shift 2 2 3, .shift 1 1 2, .shift 1 0 1] ∧
+    (run { exT' with optimized := false } exInp 0 20).2.evs =
+      [.shift 0 3 3, .reduce 0 0 3, .reduce 0 1 3, .shift 2 2 3, .shift 1 1 2, .shift 1 0 1] := by
+  decide +kernel
 
 end TmVerif.LRCheck
